@@ -69,13 +69,43 @@ def _frame(rows, dtype):
     })
 
 
-def _file(fmt, dtype, rg, rows):
+BIG = 2 ** 53 + 1
+
+
+def _frame_numeric(rows, dtype):
+    import numpy as np
+    import pandas as pd
+    ids = [int(r[1]) for r in rows]
+    return pd.DataFrame({
+        "id": np.array(ids, dtype="int64"),
+        "score": np.array([_val(r[0], dtype) for r in rows], dtype="int64" if dtype == "int" else "float64"),
+        "big": np.array([BIG + 2 * i for i in ids], dtype="int64"),
+    })
+
+
+def _canon_numeric(d, dtype):
+    if sorted(d.keys()) != ["big", "id", "score"]:
+        raise Modified(f"columns {sorted(d.keys())}")
+    i = d["id"].item() if hasattr(d["id"], "item") else d["id"]
+    g = d["big"].item() if hasattr(d["big"], "item") else d["big"]
+    v = d["score"].item() if hasattr(d["score"], "item") else d["score"]
+    if isinstance(i, bool) or not isinstance(i, int):
+        raise Modified(f"id {i!r} is not the integer that was written")
+    if isinstance(g, bool) or not isinstance(g, int) or g != BIG + 2 * i:
+        raise Modified(f"big {g!r} of row {i} is not the integer {BIG + 2 * i} that was written")
+    fr = Fraction(v) * (1 if dtype == "int" else SCALE)
+    if fr.denominator != 1:
+        raise Modified(f"score {v!r}")
+    return [int(fr), int(i)]
+
+
+def _file(fmt, dtype, rg, rows, layout="mixed"):
     """a (cached) real file holding the rows; fmt: tsv / csv (both tab separated, as mokapot reads them) / parquet"""
-    key = (fmt, dtype, rg if fmt == "parquet" else None, tuple((int(a), int(b)) for a, b in rows))
+    key = (fmt, dtype, rg if fmt == "parquet" else None, tuple((int(a), int(b)) for a, b in rows), layout)
     p = _FILES.get(key)
     if p is None:
         p = Path(_tmpdir()) / f"f{len(_FILES)}.{fmt}"
-        df = _frame(rows, dtype)
+        df = _frame(rows, dtype) if layout == "mixed" else _frame_numeric(rows, dtype)
         if fmt == "parquet":
             kw = {} if not rg else {"row_group_size": int(rg)}
             df.to_parquet(p, index=False, **kw)
@@ -120,14 +150,15 @@ def _rows_of_df(df, dtype):
 # ----------------------------------------------------------------------------- real code
 def _run_merge_sort(c):
     import mokapot.utils as U
-    paths = [_file(c["fmt"], c["dtype"], c.get("rg"), rows) for rows in c["inputs"]]
+    layout = c.get("layout", "mixed")
+    paths = [_file(c["fmt"], c["dtype"], c.get("rg"), rows, layout) for rows in c["inputs"]]
     old = U.MERGE_SORT_CHUNK_SIZE
     U.MERGE_SORT_CHUNK_SIZE = int(c["rchunk"])
     try:
         out = list(U.merge_sort(paths, "score"))
     finally:
         U.MERGE_SORT_CHUNK_SIZE = old
-    return [_canon(d, c["dtype"]) for d in out]
+    return [(_canon if layout == "mixed" else _canon_numeric)(d, c["dtype"]) for d in out]
 
 
 def _readers(c):
@@ -319,8 +350,11 @@ def _mk_table(ins, desc, via, rchunk, ochunk=1, dtype="float", backing="df", rg=
 
 
 def _mk_ms(ins, fmt, rchunk, dtype="float", rg=None, extra=()):
-    c = {"fn": "merge_sort", "inputs": ins, "fmt": fmt, "rchunk": int(rchunk), "dtype": dtype, "rg": rg}
-    c["tags"] = ["merge_sort", f"fmt={fmt}", f"dtype={dtype}"] + _shape_tags(ins, True) + list(extra)
+    # a third of the merge_sort inputs are tables WITHOUT any string column (id, score and a 2^53+odd integer): a row
+    # iterator that goes through a numeric array would turn the integers into floats
+    layout = "numeric" if (len(ins) + sum(len(x) for x in ins)) % 3 == 0 else "mixed"
+    c = {"fn": "merge_sort", "inputs": ins, "fmt": fmt, "rchunk": int(rchunk), "dtype": dtype, "rg": rg, "layout": layout}
+    c["tags"] = ["merge_sort", f"fmt={fmt}", f"dtype={dtype}", f"layout={layout}"] + _shape_tags(ins, True) + list(extra)
     return c
 
 
